@@ -105,6 +105,7 @@ def opsExpr (op : String) (ins outs : List String) : Option String :=
     pure (if Eval.certOk funs main box ds.toArray then "ok nodes-consistent"
           else if ds.length != main.size then "FAIL domain-count" else s!"FAIL node-not-enclosing {bad}")
   | "builderror", _, _ => pure "ok builderror"
+  | "evalerror", _, _ => pure "FAIL exception-thrown-by-the-library"
   | _, _, _ => none
 
 end Ibex.Driver
